@@ -59,24 +59,24 @@ def rule_F1(ctx, R):
             res.bad(Violation("F1", dfn["path"], "drop", "PoisonRef::drop " + bad, *_floc(dfn)))
         else:
             res.ok(dfn["path"])
-    # construction sites
+    # construction sites: every reachable function that returns a PoisonRef (anywhere inside its result), with the private
+    # constructor and keyed helpers inlined - and Poisonable's own guard()/read_guard() impls inlined into lock()/read() & co
+    from rules_ts import entry_fns
     nsites = 0
-    for f in analysed_fns(ctx):
-        if not any(s["k"] == "assign" and s["rv"]["k"] == "aggregate" and s["rv"].get("path") == PREF
-                   for b in f["mir"]["blocks"] for s in b["stmts"]) and \
-                not any(t["k"] == "call" and t["callee"].get("def", "").endswith("PoisonRef<'a, Guard>>::new")
-                        for b in f["mir"]["blocks"] for t in [b["term"]]):
+    pf = _flag_field(ctx, POIS)
+    for top in entry_fns(ctx):
+        imp = ctx.F.impl_of_fn(top)
+        if not imp or imp["self_ty"]["k"] != "adt" or imp["self_ty"]["path"] != POIS:
             continue
-        top = ctx.F.top_fn(f)
-        if top["path"].endswith("PoisonRef<'a, Guard>>::new"):
-            continue   # the constructor itself: its callers are judged
-        paths, err, I = ctx.paths(top)
+        if not any(x["k"] == "adt" and x["path"] == PREF for x in ty_walk(top["output"])) and \
+                not any(x["k"] == "alias" for x in ty_walk(top["output"])):
+            continue
+        paths, err, I = ctx.paths(top, inline_assume_of=(POIS,))
         if err:
             res.undecided(top["path"], "analysis", err, *_floc(top))
             continue
         bad = None
         found = False
-        pf = _flag_field(ctx, POIS)
         for p in paths:
             if p.kind != "ret" or not p.value:
                 continue
@@ -102,7 +102,7 @@ def rule_F1(ctx, R):
         elif found:
             nsites += 1
             res.ok("site " + top["path"])
-    res.need(5, "PoisonRef drop + construction sites")
+    res.need(3, "PoisonRef drop + construction sites (Drop, Lockable::guard, Sharable::read_guard at least)")
     return res
 
 
@@ -156,13 +156,16 @@ def rule_F3(ctx, R):
                            "the poisoned edge, Ok(x) otherwise, with the same payload x (a poisoned acquisition still yields a working guard)")
     pf = _flag_field(ctx, POIS)
     n = 0
-    for f in analysed_fns(ctx):
+    from rules_ts import entry_fns
+    for f in entry_fns(ctx):
         imp = ctx.F.impl_of_fn(f)
         if not imp or imp["self_ty"]["k"] != "adt" or imp["self_ty"]["path"] != POIS:
             continue
-        if f["path"].endswith("::is_poisoned") or "inputs" not in f:
+        if f["path"] == ctx.A.flag_fn.get("read") or "inputs" not in f or f["output"].get("name") == "bool":
             continue
-        paths, err, I = ctx.paths(f)
+        if "ACQ-SCOPED" in R.roles(f):
+            continue   # scoped calls hand the PoisonResult to the closure; it is built by data_mut/data_ref, judged themselves
+        paths, err, I = ctx.paths(f, inline_assume_of=(POIS,))
         if err:
             res.undecided(f["path"], "analysis", err, *_floc(f))
             continue
@@ -214,7 +217,7 @@ def rule_F3(ctx, R):
         else:
             n += 1
             res.ok(f["path"])
-    res.need(16, "Poisonable functions producing PoisonResult")
+    res.need(14, "Poisonable functions producing PoisonResult")
     return res
 
 
@@ -391,6 +394,41 @@ def rule_F5(ctx, R):
         else:
             res.ok("kill in %s reached from %s" % (key[1], key[0]))
     res.need(9, "RawLock::poison executions")
+    return res
+
+
+def rule_F7(ctx, R):
+    res = RuleResult("F7", "a Poisonable hold ends only through PoisonRef's Drop (the one place that poisons when the thread is "
+                           "panicking): no reachable function forgets a PoisonRef or moves its inner guard out without dropping it")
+    n = 0
+    for f, paths in _entry_paths(ctx):
+        if not any(x["k"] == "adt" and x["path"] in (PREF, "poisonable::PoisonGuard") for t in f.get("inputs", []) for x in ty_walk(t)):
+            continue
+        n += 1
+        _, _, I = ctx.paths(f)
+        bad = None
+
+        def mentions(v):
+            if v is None:
+                return False
+            if v[0] == "op":
+                t = I.optype.get(v[1])
+                return t is not None and any(x["k"] == "adt" and x["path"] == PREF for x in ty_walk(t))
+            if v[0] == "agg":
+                return v[2] == PREF or any(mentions(x) for x in v[4])
+            if v[0] == "ref":
+                return False
+            return False
+        for p in paths:
+            for e in p.ev("FORGET"):
+                if mentions(e.get("val")):
+                    bad = (e, "a PoisonRef is forgotten (%s): its Drop never runs, so a hold that ends while the thread is panicking "
+                              "does not poison" % (e.get("via") or "mem::forget"))
+        if bad:
+            res.bad(Violation("F7", f["path"], "poisonref-forgotten", bad[1], bad[0].get("file"), bad[0].get("line")))
+        else:
+            res.ok(f["path"])
+    res.need(10, "reachable functions taking a Poisonable guard")
     return res
 
 
